@@ -61,6 +61,9 @@ struct vsbx_events
   uint64_t last_freed = 0;
   uint64_t mallocs = 0;
   uintptr_t last_outside_ptr = 0;
+  // arguments of the most recent membership query (what RLBox range-checked)
+  uintptr_t last_same_p1 = 0, last_same_p2 = 0;
+  uint64_t same_queries = 0;
   void reset() { *this = vsbx_events{}; }
 };
 inline thread_local vsbx_events vsbx_ev;
@@ -142,6 +145,9 @@ namespace vsbx_detail {
   {
     static inline bool impl_is_in_same_sandbox(const void* p1, const void* p2)
     {
+      vsbx_ev.last_same_p1 = reinterpret_cast<uintptr_t>(p1);
+      vsbx_ev.last_same_p2 = reinterpret_cast<uintptr_t>(p2);
+      vsbx_ev.same_queries++;
       return vsbx_region_table::find(reinterpret_cast<uintptr_t>(p1)) ==
              vsbx_region_table::find(reinterpret_cast<uintptr_t>(p2));
     }
@@ -154,6 +160,9 @@ namespace vsbx_detail {
       const void* p2,
       rlbox_vsbx_sandbox<Cfg>* (*finder)(const void*))
     {
+      vsbx_ev.last_same_p1 = reinterpret_cast<uintptr_t>(p1);
+      vsbx_ev.last_same_p2 = reinterpret_cast<uintptr_t>(p2);
+      vsbx_ev.same_queries++;
       return finder(p1) == finder(p2);
     }
   };
